@@ -32,17 +32,26 @@ def obj_fn(program):
         def fn(leaf):
             view = ref.View(program, leaf)
             if cls == "ObjectiveMinimizeMakespan":
+                if ("horizon",) in leaf:
+                    return leaf[("horizon",)]  # free horizon: the horizon unknown itself is part of the schedule
                 ends = [view.end[t] for t in view.tasks if view.sched[t]]
                 return max(ends) if ends else 0
-            vals = ref.indicator_values(view, d)
-            return min(vals)
+            if cls in ("ObjectiveMinimizeIndicator", "ObjectiveMaximizeIndicator"):
+                vals = ref.indicator_values(view, view.dd[d["args"]["target"]["$"]])
+            else:
+                vals = ref.indicator_values(view, d)
+            return None if vals is None else min(vals)
         return kind, fn, d["args"].get("weight", 1)
 
     parts = [one(d) for d in objs]
     kind = parts[0][0]
     if len(parts) == 1:
         return kind, parts[0][1]
-    return kind, (lambda leaf: sum(w * f(leaf) for (_k, f, w) in parts))
+    def total(leaf):
+        vs = [(w, f(leaf)) for (_k, f, w) in parts]
+        return None if any(v is None for _w, v in vs) else sum(w * v for w, v in vs)
+
+    return kind, total
 
 
 def programs(tier):
@@ -51,6 +60,7 @@ def programs(tier):
     base2 = [fixed("a", 1), fixed("b", 2), worker("w"), req("a", "w"), req("b", "w")]
     menu2 = [["start", "a"], ["end", "b"]]
     out.append(("plain-feasible", P(fixed("a", 1), fixed("b", 1), H=2), {}, [["start", "a"]], 5))
+    out.append(("plain-feasible/debug", P(fixed("a", 1), fixed("b", 1), H=2), {"debug": True}, [["start", "a"]], 3))
     out.append(("plain-infeasible", P(fixed("a", 2), con("TaskEndBefore", "c", task=R("a"), value=1), H=2), {}, [["start", "a"]], 4))
     out.append(("plain-optional", P(fixed("a", 1, optional=True), fixed("b", 1), H=2), {}, [["start", "b"], ["start", "a"]], 4))
     out.append(("optional-objective", P(fixed("a", 2, optional=True), new("ObjectiveMinimizeFlowtime", "o"), H=2), {}, [["start", "a"]], 4))
